@@ -369,6 +369,48 @@ def check_optional_batch_item_fields(ctx, t):
 CLIENT_MODULES = ('kmip/services/kmip_client.py', 'kmip/pie/client.py', 'kmip/services/kmip_protocol.py', 'kmip/services/results.py', 'kmip/pie/factory.py', 'kmip/core/factories/secrets.py')
 
 
+def check_result_constructor_passthrough(ctx):
+    """C19.R13: result classes that extend another result class hand their parameters to the parent constructor under the same names."""
+    RES = 'kmip/services/results.py'
+    ctx.rule('C19.R13', 'in kmip/services/results.py a result class hands its constructor parameters to the constructor of its base class so that each lands in the parameter of the same name: in a positional super().__init__(a, b, ...) call every argument that is a parameter of the caller and also a parameter name of the base constructor sits at the position of that name (keywords likewise name themselves) - otherwise the fields of a response reach the caller under each other\'s names (private / public key identifier exchanged) with status Success and no error')
+    t = ctx.src.tree(RES)
+    cls = {c.name: c for c in t.body if isinstance(c, ast.ClassDef)}
+    n = 0
+    for cn, c in sorted(cls.items()):
+        init = get_method(c, '__init__', optional=True)
+        if init is None:
+            continue
+        bases = [b.id for b in c.bases if isinstance(b, ast.Name) and b.id in cls]
+        if not bases:
+            continue
+        binit = get_method(cls[bases[0]], '__init__', optional=True)
+        if binit is None:
+            continue
+        bps = [a.arg for a in binit.args.args][1:]
+        own = {a.arg for a in init.args.args}
+        for call in [x for x in walk_local(init) if isinstance(x, ast.Call) and isinstance(x.func, ast.Attribute) and x.func.attr == '__init__']:
+            recv = x_ = call.func.value
+            if not (isinstance(recv, ast.Call) and call_name(recv) == 'super') and not (isinstance(recv, ast.Name) and recv.id in cls):
+                continue
+            args = list(call.args)
+            if isinstance(recv, ast.Name) and args:
+                args = args[1:]        # Base.__init__(self, ...)
+            n += 1
+            wrong = []
+            for i_, a in enumerate(args):
+                if isinstance(a, ast.Starred):
+                    break
+                if isinstance(a, ast.Name) and a.id in own and a.id in bps and (i_ >= len(bps) or bps[i_] != a.id):
+                    wrong.append('%s passed as %s' % (a.id, bps[i_] if i_ < len(bps) else 'an extra argument'))
+            for k in call.keywords:
+                if k.arg and isinstance(k.value, ast.Name) and k.value.id in own and k.value.id in bps and k.arg != k.value.id:
+                    wrong.append('%s passed as %s' % (k.value.id, k.arg))
+            ctx.check(not wrong, 'C19.R13', '%s.__init__|%s.__init__ arguments' % (cn, bases[0]), '%s:%s %s.__init__' % (RES, call.lineno, cn),
+                      'every parameter handed to %s.__init__ lands in the parameter of the same name' % bases[0],
+                      '%s hands its parameters to %s.__init__ under other names: %s - the client would report these response fields exchanged' % (cn, bases[0], '; '.join(wrong)))
+    ctx.count('result_constructor_passthrough_calls', n, 10)
+
+
 def check_no_shared_result_containers(ctx):
     """C19.R12: no function of the client keeps a container between calls through a default argument."""
     ctx.rule('C19.R12', 'what the client reports for one response contains nothing of an earlier one: no function of the client modules has a default argument that is a mutable container built once at definition time (a list / dict / set display, or list() / dict() / set() / bytearray()) and then filled, updated or returned - every call that relies on the default would share one object, so fields of an earlier answer (a server-generated IV, an identifier) would be reported for a later answer that does not carry them')
@@ -847,6 +889,7 @@ def run(ctx):
     from .c12 import check_short_reads
     check_short_reads(ctx, 'C19.R10', tail=' - the client decodes responses with the same primitives: a response truncated or mis-sized inside such a value is returned to the caller as (shorter) data instead of raising')
     check_no_shared_result_containers(ctx)
+    check_result_constructor_passthrough(ctx)
     ctx.not_decided += ['that the data returned on success equals the payload values (field-by-field naming of result objects is only checked for status/reason/message)']
     ctx.assumptions += ['socket.recv(n) returns at most n bytes and b"" at end of stream']
     check_optional_batch_item_fields(ctx, src.tree(PROXY))
